@@ -258,14 +258,15 @@ def _d2_chain_form(F, b, defs, gs, dom, after):
         if not any(any(x == e or x in dom[e] for x in g["good"] + g["bad"]) for e in after):
             continue
         names_ = [hir.last(c[2]) for c in g["chain"]]
-        if "filter" not in names_ or not ({"find", "any"} & set(names_)):
+        if "filter" not in names_ or not ({"find", "any", "find_map"} & set(names_)):
             continue
         if "tarjan" not in names_ and not any("tarjan" in c[2] for c in g["chain"]):
             # the chain must start at the components
             pass
         if not ({"flatten", "flat_map"} & set(names_)):
             return "the members of a multi-item component are not enumerated (no flatten over the component): not every member is tested"
-        dropped = [n for n in names_ if n in DROPPERS]
+        term_i = max(i for i, n in enumerate(names_) if n in ("find", "any", "find_map"))
+        dropped = [n for i, n in enumerate(names_) if n in DROPPERS and i != term_i]
         if dropped:
             return "the chain that looks for a constant inside a cycle narrows its input with `%s`: not every member of every multi-item component is tested" % dropped[0]
         size_ok = const_ok = False
@@ -283,17 +284,18 @@ def _d2_chain_form(F, b, defs, gs, dom, after):
                         op = {"<": ">", ">": "<", "<=": ">=", ">=": "<="}.get(op, op)
                     if has_len and ((op, lits) in ((">", [1]), (">=", [2]), ("!=", [1]))):
                         size_ok = True
-            if nm in ("find", "any") and len(t["args"]) > 1:
+            if nm in ("find", "any", "find_map") and len(t["args"]) > 1:
                 body = _closure_or_fn_body(F, b, defs, t["args"][1])
                 txt = {hir.res_def(n) or "" for n in hir.walk(body or {}) if n.get("k") == "path"} | \
                       {x for m in hir.nodes(body or {}, "match") for a in m["arms"] for x in hir.pat_paths(a["pat"])} | \
                       {x for l in hir.nodes(body or {}, "let") for x in hir.pat_paths(l["pat"])}
-                callees = [hir.call_def(c2) for c2 in hir.nodes(body or {}, "call")]
+                callees = [hir.call_def(c2) for c2 in hir.nodes(body or {}, "call")] + [c2.get("def") for c2 in hir.nodes(body or {}, "mcall")]
                 for cd in callees:
                     fb = F.body(cd) if cd else None
                     if fb is not None and fb.hir:
                         txt |= {x for m in hir.nodes(fb.hir["value"], "match") for a in m["arms"] for x in hir.pat_paths(a["pat"])}
                         txt |= {hir.pat_desc(l["pat"]) for l in hir.nodes(fb.hir["value"], "let")}
+                        txt |= {hir.pat_desc(a["pat"]) for m in hir.nodes(fb.hir["value"], "match") for a in m["arms"]}
                 if any("ValueKind::Constant" in x for x in txt) or any("Constant" in hir.pat_desc(mm) for mm in [a["pat"] for m in hir.nodes(body or {}, "match") for a in m["arms"]]):
                     const_ok = True
                 elif body is not None and any("Constant" in str(x) for x in txt):
@@ -329,7 +331,13 @@ def rule_d2(F):
     r.inst("tarjan before Ok", {"sites": tj})
     if not tj or not all(tj[0] in dom[bi] for bi, _ in oks):
         r.bad(b.path, "tarjan", relfile(b.file), b.line, "the order is not derived from the strongly connected components")
-    errs = [bi for bi, t in mir.calls(b) if hir.last(mir.callee(t)) == "error_recursive_constant"]
+    def rejects(c, depth=0):
+        """error_recursive_constant itself, or a crate helper that builds that error"""
+        if hir.last(c or "") == "error_recursive_constant":
+            return True
+        fb = F.body(c or "")
+        return bool(fb is not None and fb.mir and depth < 2 and any(rejects(mir.callee(t2), depth + 1) for _, t2 in mir.calls(fb)))
+    errs = [bi for bi, t in mir.calls(b) if rejects(mir.callee(t))]
     r.inst("recursive-constant errors", {"sites": len(errs)})
     if len(errs) < 2:
         r.bad(b.path, "recursive constant", relfile(b.file), b.line, "find_compilation_order must reject both a self-referencing constant and a constant inside a larger cycle (found %d rejection sites)" % len(errs))
